@@ -227,7 +227,8 @@ def apply_fault(data: bytes, f: dict[str, Any]) -> bytes:
         rng = random.Random(f["seed"])
         out = bytearray(data)
         for p in range(f["a"], min(n, f["b"])):
-            new = rng.randrange(1, 256) if rng.random() < 0.5 else ord(rng.choice("!\"#$%&'()*+,-./:;<=>?@[\\]^_`{|}~ \n\t"))
+            r0 = rng.random()
+            new = rng.randrange(1, 256) if r0 < 0.4 else (rng.choice([0x81, 0x8D, 0x8F, 0x90, 0x9D, 0x80, 0xC3, 0xE3, 0xFF, 0xFE]) if r0 < 0.55 else ord(rng.choice("!\"#$%&'()*+,-./:;<=>?@[\\]^_`{|}~ \n\t")))
             if chr(out[p]).isdigit() or chr(new).isdigit():
                 continue
             out[p] = new
@@ -274,6 +275,14 @@ def zoo_workload() -> dict[str, Any]:
     return {"files": files, "roles": roles, "mapping": "low", "target": "main.s", "name": "zoo"}
 
 
+def zoo_table_workload() -> dict[str, Any]:
+    wl = zoo_workload()
+    wl["target"] = "zoo.tbl"
+    wl["name"] = "zoo_table"
+    wl["files"]["zoo.tbl"] = "41=A\n42=B\n43=C\nE9=\u00e9\n8140=\u3042\n".encode("utf-8")
+    return wl
+
+
 def sample_workloads() -> list[dict[str, Any]]:
     out = []
     d = os.path.join(core.REPO, "tests", "samples")
@@ -298,6 +307,9 @@ def progen_workload(rng: random.Random) -> dict[str, Any]:
     incs = sorted(prog.inc_roots)
     if incs and rng.random() < 0.35:
         target = rng.choice(incs)
+    tables = sorted(k for k in files if k.endswith(".tbl"))
+    if tables and rng.random() < 0.2:
+        target = rng.choice(tables)  # a damaged table file is an input too: the assembler must still finish
     return {"files": files, "roles": roles, "mapping": mapping, "target": target, "name": "progen"}
 
 
@@ -327,7 +339,7 @@ def gen_case(cseed: int, tier: str) -> dict[str, Any]:
 
 
 def plan(tier: str) -> dict[str, Any]:
-    fixed = [{"type": "base", "seed": 1, "workload": zoo_workload()}] + [{"type": "base", "seed": 2 + i, "workload": wl} for i, wl in enumerate(sample_workloads())]
+    fixed = [{"type": "base", "seed": 1, "workload": zoo_workload()}, {"type": "base", "seed": 99, "workload": zoo_table_workload()}] + [{"type": "base", "seed": 2 + i, "workload": wl} for i, wl in enumerate(sample_workloads())]
     return {"fixed": fixed, "seeded": 64 if tier == "quick" else 0, "chunk": 1, "wall_cap_s": 240, "minimise_s": 40}
 
 
